@@ -24,6 +24,7 @@ from phyclone.smc.utils import RootPermutationDistribution
 from phyclone.tree import FSCRPDistribution, Tree, TreeJointDistribution
 from phyclone.utils import Timer
 from phyclone.utils.dev import clear_proposal_dist_caches
+from phyclone.tree.utils import compute_log_S, _convolve_two_children
 
 
 def run(
@@ -195,6 +196,11 @@ def run_phyclone_chain(
     chain_num,
     subtree_update_prob,
 ):
+    # A worker process can serve more than one chain (and a script can call this twice): start every chain with cold
+    # caches, so that its trace does not depend, bit for bit, on what ran before it in the same process.
+    clear_proposal_dist_caches()
+    compute_log_S.cache_clear()
+    _convolve_two_children.cache_clear()
     tree_dist = TreeJointDistribution(FSCRPDistribution(concentration_value))
     kernel = setup_kernel(outlier_prob, proposal, rng, tree_dist)
     samplers = setup_samplers(kernel, num_particles, outlier_prob, resample_threshold, rng, tree_dist)
